@@ -104,7 +104,14 @@ def v_cint(x):
 
 
 class Cell(HasTraits):
-    """the class the forward reference Instance("Cell") of the VInst inner trait names"""
+    """the class the forward reference Instance("Cell") of the VInst inner trait names; one value (atom 203): every
+    Cell equals every other, so that copies and unpickled Cells are still found by remove / index / in"""
+
+    def __eq__(self, other):
+        return isinstance(other, Cell)
+
+    def __hash__(self):
+        return 203
 
 
 CELL = Cell()
